@@ -271,7 +271,16 @@ pub fn c07(ctx: &mut Ctx) -> R {
     let mut budget = 2 * (visible - consumed) + 16;
     loop {
         let before = (consumed, produced);
-        let out_len = if ctx.chance(1, 3) { ctx.range(1, 8) } else { 65_536 };
+        // once only framing is left (no data byte ahead) any output size, also 0, must do
+        let only_framing = !truncated && produced == coding.payload.len();
+        let out_len = if only_framing && ctx.flip() {
+            ctx.count("p:zero_output_for_framing_only");
+            0
+        } else if ctx.chance(1, 3) {
+            ctx.range(1, 8)
+        } else {
+            65_536
+        };
         check_read(ctx, &mut rx, visible, out_len, stop, &mut consumed, &mut produced, &mut out)?;
         reads += 1;
         if rx.can_proceed() {
@@ -335,10 +344,17 @@ pub fn c08(ctx: &mut Ctx) -> R {
         }
     };
     let http10 = close_delim && ctx.flip();
+    // statuses with a body in every class (a redirect with Content-Length has one too)
+    let status = *ctx.pick(&[200u16, 200, 201, 301, 302, 307, 404, 500, 999]);
+    let loc = if (300..400).contains(&status) { "Location: /moved\r\n" } else { "" };
     let head = if close_delim {
-        format!("HTTP/1.{} 200 OK\r\nX-A: b\r\n\r\n", if http10 { 0 } else { 1 })
+        let st = if (300..400).contains(&status) { 200 } else { status };
+        format!("HTTP/1.{} {} OK\r\nX-A: b\r\n\r\n", if http10 { 0 } else { 1 }, st)
+    } else if ctx.chance(1, 6) {
+        // an HTTP/1.0 response cannot be chunked: the Content-Length governs
+        format!("HTTP/1.0 {} OK\r\n{}Transfer-Encoding: chunked\r\nContent-Length: {}\r\n\r\n", status, loc, n)
     } else {
-        format!("HTTP/1.1 200 OK\r\nContent-Length: {}\r\n\r\n", n)
+        format!("HTTP/1.1 {} OK\r\n{}Content-Length: {}\r\n\r\n", status, loc, n)
     };
     let mut rx = match reach_body_rx(use_call, method, head.as_bytes()) {
         Ok(v) => v,
@@ -454,7 +470,7 @@ pub fn c08(ctx: &mut Ctx) -> R {
                     let mc = lib("Flow<Cleanup>::must_close_connection", || c.must_close_connection());
                     ensure!(mc, "C08.close_delimited_reusable", "connection with a close-delimited body is not marked must-close");
                 }
-                Some(RecvBodyResult::Redirect(_)) => fail!("C08.wrong_state", "", "200 response ended in Redirect"),
+                Some(RecvBodyResult::Redirect(_)) => fail!("C08.wrong_state", "", "non-3xx response ended in Redirect"),
                 None => fail!("C08.close_delimited_not_ready", "proceed", "proceed() returned None for a close-delimited body"),
             }
         }
